@@ -4,7 +4,7 @@
     Z, positive, nat stay the extracted inductives. *)
 From Coq Require Import ZArith List String.
 From Coq Require Import ExtrOcamlBasic ExtrOcamlString.
-From TV Require Import Layout.Types gen.Tables gen.Pinned Model.Monad Model.Ints Model.Decoder Model.Message Model.Pump Model.Show Model.Attr Model.RC Spec.Value Spec.Message.
+From TV Require Import Layout.Types gen.Tables gen.Pinned Model.Monad Model.Ints Model.Decoder Model.Message Model.Pump Model.Show Model.Attr Model.RC Model.Frontends Spec.Value Spec.Message.
 
 Definition tables_current : tables := Tables.T.
 Definition tables_pinned : tables := Pinned.T.
@@ -40,9 +40,18 @@ Definition run_rc (cur : bool) (v : Z) : string :=
         (String.append (dec_string (snd (fst r))) (String.append ":"%string (snd r))))) (rc_rows T d v)))).
 Definition run_rc_spec (v : Z) : string := rc_render Pinned.T Pinned.rc_default_name (classify v).
 
+(** front-ends: bytes|ok *)
+Definition show_parsed (p : parsed) : string :=
+  String.append (show_hex_ (p_bytes p)) (if p_ok p then "|1"%string else "|0"%string).
+Definition run_fe_hex (s : list Z) : string := show_parsed (parse_hex s).
+Definition run_fe_swtpm (s : list Z) : string := show_parsed (parse_swtpm s).
+Definition run_fe_auto (s : list Z) : string :=
+  match detect s with FPcapng => "pcapng" | FHex => "hex" | FBinary => "binary" | FTooShort => "short" end%string.
+Definition run_fe_pcap (ps : list (list Z)) : string := show_hex_ (pcap_bytes ps).
+
 Extraction "Extract/model.ml"
   tables_current tables_pinned prims_current prims_pinned
-  run_decode run_obj run_spec run_attr run_rc run_rc_spec find_type
+  run_decode run_obj run_spec run_attr run_rc run_rc_spec run_fe_hex run_fe_swtpm run_fe_auto run_fe_pcap find_type
   prim_text prim_bytes valid representable pname pwidth psigned pkind_
   hex2 dec_string show_hex_
   RType RCommand RResponse RStream.
